@@ -5,6 +5,7 @@ INVARIANT TypeOK
 INVARIANT RoundTrip
 INVARIANT CodecRoundTrip
 INVARIANT JsonRoundTrip
+INVARIANT MediaTypeSane
 INVARIANT CoerceJsonLike
 INVARIANT Export
 CHECK_DEADLOCK FALSE
